@@ -44,7 +44,7 @@ def finding_key(req, obs, detail):
         reserved = _reserved("msl/src/names.rs" if tgt == "msl" else "hlsl/src/names.rs")
         return f"{tgt} {cls} {'reserved-name' if name in reserved else 'other-name'}"
     if cls in ("unsized-array-unbound", "static-object-bound", "nested-array-unbound", "struct-resource-unbound",
-               "numthreads-ambiguous"):
+               "numthreads-ambiguous", "prototype-default-unused"):
         return f"{tgt} {cls}"
     if cls == "entry-name-ambiguous":
         # bindings are reported under their leaf name: two declarations in different namespaces whose (generated)
@@ -206,7 +206,7 @@ def front_error_orders():
     pipeline / entry point 1 (and both at one pipeline), in both file layouts, with and without forward declarations.
     The answer is the first error the type checker meets in file order (attributes are parsed where a function is
     defined, a Pipeline block sees the functions registered before it)."""
-    kinds = "ABCDEFHI"
+    kinds = "ABCDEFHITQ"
 
     def build(errs, layout, fd, sampler_index=False, late=False):
         res = "g_t:Texture2D:-:-:0:0:e;g_s:SamplerState:-:-:1:0:e" + (":vi3" if sampler_index else "")
@@ -234,10 +234,30 @@ def front_error_orders():
                 eopts[j].append("nt3")
             elif kind == "I":
                 popts[j].append("b")
+            elif kind == "T":
+                # the entry point is a function template
+                eopts[j].append("tp")
+            elif kind == "Q":
+                # the entry point is named `::<name>`
+                if not stages[j]:
+                    return None
+                popts[j].append("q")
+            elif kind in "1234":
+                # exactly one property of one of the four groups a compute pipeline refuses
+                popts[j].append("gs900" + kind)
+        for j in (0, 1):
+            if "q" in popts[j] and not stages[j]:
+                return None
         if fd:
             for j in (0, 1):
-                eopts[j].append("fd")
+                if "tp" not in eopts[j]:
+                    eopts[j].append("fd")
+        for k in range(4):
+            if "tp" in eopts[k] and k not in stages[0] + stages[1]:
+                return None
         if late:
+            if "tp" in eopts[0]:
+                return None
             eopts[0].append("lo")
         ents = []
         for k, (n, st, th) in enumerate(zip(names, ["Compute", "Compute", "Vertex", "Pixel"], ["8.4.1", "4.2.1", "-", "-"])):
@@ -258,6 +278,9 @@ def front_error_orders():
     for layout in ["0", "0;L1"]:
         for fd in [False, True]:
             combos = []
+            for x in "1234":
+                combos.append(([(x, 0)], False))
+                combos.append(([(x, 1), ("E", 0)], False))
             for x in kinds:
                 combos.append(([(x, 0)], False))
                 combos.append(([(x, 1)], False))
@@ -314,7 +337,18 @@ def search(ctx):
             out.append("\t".join(["C05.meta", tgt, "name=P0", "0", res, "h0::::d0", "cs_0:Compute::0::8.4.1", "P0:-:0"]))
             out.append("\t".join(["C05.meta", tgt, "name=P0", "0;I0:::", res, "", "cs_0:Compute:::8.4.1:i0".replace(":::8", "::::8"), "P0:-:0"]))
             out.append("\t".join(["C05.meta", tgt, "name=P0", "1;I:0::;I::0:0", res, "h0:0:::r", "cs_0:Compute::::8.4.1:i1", "P0:-:0"]))
-        for sh in "iefgwdstcbvamz":
+        # default values on the prototype and the definition / on the prototype only (`po`: the compiler drops them --
+        # recorded finding on Metal), reached through a call / not called
+        for kind in ["cbuffer", "ConstantBuffer", "ByteAddressBuffer", "Texture2D", "StructuredBuffer"]:
+            res = f"g_a:{kind}:-:-:0:0:e;g_b:Texture2D:-:-:0:0:e"
+            for hopts in ["r+d0+fd", "r+d0+fd+po", "d0,1+fd+po", "d0+fd"]:
+                for calls in ["0", ""]:
+                    out.append("\t".join(["C05.meta", tgt, "name=P0", "0", res, f"h0::::{hopts}", f"cs_0:Compute:1:{calls}::8.4.1", "P0:-:0"]))
+            out.append("\t".join(["C05.meta", tgt, "name=P0", "0", res, "h0:0:::d0+fd+po;h1::0:", "cs_0:Compute::1::8.4.1", "P0:-:0"]))
+        # a pipeline name the file does not have
+        for pipes in ["P0:-:0", "P0:-:0;P1:1:0", ""]:
+            out.append("\t".join(["C05.meta", tgt, "name=P_absent", "0", "g_t:Texture2D:-:-:0:0:e", "", "cs_0:Compute:0:::8.4.1", pipes]))
+        for sh in "iefgwdstcbvamzkq":
             out.append("\t".join(["C05.meta", tgt, "name=P0", "0", "g_a:Texture2D:-:-:0:0:e;g_c:cbuffer:-:-:0:0:e", "",
                                    f"cs_0:Compute:0{sh},1{sh}:::8.4.1", "P0:-:0"]))
         # type spellings: every bindable kind declared through a typedef of the object, of an array of it, of a typedef,
@@ -437,21 +471,27 @@ SPEC = {
             "static samplers, buffer addresses and bindless tables; declarations with several declarators (shared attributes, "
             "per-declarator dimensions / register annotations); bind group written "
             "as attribute, register space, vk::binding or both; explicit indices; helper call graphs with 14 statement shapes "
-            "around each mention, default arguments and global initialisers that read resources, forward declarations; "
+            "around each mention (16 now: also empty for-init / continue / break and sizeof next to it), default arguments and "
+            "global initialisers that read resources, forward declarations; default values of a forward-declared helper written "
+            "on prototype AND definition or on the PROTOTYPE ONLY (the compiler drops those: recorded Metal finding "
+            "prototype-default-unused, the model follows the code, the oracle judges against the source program); "
             "0-4 pipelines: compute, vertex+pixel, mesh+pixel, task+mesh, stage properties in either order, both file "
             "layouts, numthreads as literals / named constants / arithmetic, graphics state property sets; "
             "rare variants: unsized arrays, static object globals, a global of a non-resource object type (RayDesc), names "
             "reserved in a target, overloaded helpers, name clashes; files the front end refuses: ten error shapes (pipeline "
             "name twice, entry point named like a helper, compute next to graphics, stage property twice, graphics state on "
-            "compute, no entry point, static sampler with index, second numthreads on a definition with / without forward "
-            "declaration, Pipeline block written before the definitions of its entry points) alone or TWO / THREE "
+            "compute -- random sets and exactly one property of each of the four refused groups --, no entry point, static "
+            "sampler with index, second numthreads on a definition with / without forward "
+            "declaration, Pipeline block written before the definitions of its entry points, entry point that is a function "
+            "TEMPLATE, entry point written with a qualified name `::f`) alone or TWO / THREE "
             "independent ones at random places of the file in both layouts (a sixth of the programs with pipelines), plus "
             "accepted order-sensitive shapes: a second numthreads attribute on a forward declaration only, an overload of an "
             "entry point defined after every Pipeline block) rendered to a file and compiled by the real compile() x {dx, vk, "
-            "vk+buffer-address, msl} x {all, one name, no-pipeline}, plus a sweep of every reserved name of hlsl/msl names.rs "
-            "as entry-point and as resource name and an enumeration of ~17000 small inputs (every spelling x kind x target; "
-            "every ordered pair of front-end error kinds at two pipelines / entry points and at one, x layout x forward "
-            "declarations: ~1160 files whose answer is the FIRST error in file order); a second "
+            "vk+buffer-address, msl} x {all, one name, no-pipeline, a name the file does not have (an eighth of the programs: err:unknown)}, plus a sweep of every reserved name of hlsl/msl names.rs "
+            "as entry-point and as resource name and an enumeration of ~18000 small inputs (every spelling x kind x target; "
+            "every ordered pair of the ten front-end error kinds at two pipelines / entry points and at one, x layout x forward "
+            "declarations: ~1800 files whose answer is the FIRST error in file order; default values on prototype / both x "
+            "called / not called x 5 kinds x target); a second "
             "stream C05.layers sends the resource declarations through the real type_check and compares the layer chain of every "
             "global's type with the chain the model builds from the spelling; the emitted HLSL is re-parsed with "
             "the real lexer+parser (MSL: text scan) and the property's own oracle compares every metadata entry with the "
@@ -500,7 +540,9 @@ SPEC = {
                   "is emitted with are exactly the reported size (the former negation witness is gone); the pipelines of an "
                   "accepted file are its blocks in source order with pairwise different names. Names: composed with the C15 model of NameMap::build, two different functions / globals of one "
                   "scope never share a reported name, no reported name is reserved, and a unique unreserved name is kept "
-                  "(NameKept is now a theorem, not a hypothesis); the two remaining ways two entries can share a name (HLSL "
+                  "(NameKept is now a theorem, not a hypothesis); an entry point that is a function template or is written with a "
+                  "qualified name is refused by add_stage (model: isTemplate / a name no function has; stage_records_follow_properties "
+                  "covers it: a record points at a non-template function with a body); the two remaining ways two entries can share a name (HLSL "
                   "cbuffer blocks bypass the map; leaf names across namespaces) are proved as negation witnesses and recorded "
                   "as findings. Tables, format strings and about 100 syntactic facts are re-extracted from the source on each "
                   "run; the model is compared with the real compile() output on generated shaders.",
@@ -547,6 +589,19 @@ SPEC = {
         "it (fact modifierNeverWrapsModifier) and the C05.layers oracle checks it on every observed chain; modifier layers carry "
         "no content in the model (const only is generated; row_major / unorm need matrix / float types no resource global has)",
         "array dimensions of generated declarations are literals",
+        "covered by the correspondence run and its oracle only (no Gen fact, no theorem of their own): that a default value "
+        "written on a forward declaration only never reaches FunctionImplementation.params (Driver: such a helper has no "
+        "default-argument edges in the use graph; used_sound_complete then speaks about the graph the compiler keeps, the "
+        "oracle about the source program -- the difference is the recorded finding msl prototype-default-unused); that "
+        "select_pipeline answers a name the file does not have with 'Shader does not contain the pipeline' (Driver: "
+        "err:unknown); that a qualified entry point name is refused where a name no function has would be (Driver passes "
+        "`::name` as the name to look up)",
+        "not generated (would need the name map / registry order of the Driver extended): helpers that are member functions of "
+        "a struct or function templates (checked by hand: usage marking and Metal entry arguments follow calls through "
+        "methods and template instances), entry points declared inside a namespace (accepted, reported by leaf name while "
+        "HLSL emits `N::f`: noted under 'seen' in notes/C05.md), [WaveSize] next to numthreads (Metal answers "
+        "UnsupportedWaveSize), `.mips[][]` and matrix swizzles over a resource (Metal refuses both, HLSL reports every "
+        "binding used: the two arms of the usage analysis have no observable consequence)",
         "function ids are positions in a fixed table (helpers, entry points, late overloads, intrinsics) with `registered` / "
         "`hasBody` flags per moment instead of the registry's allocation order: ids are opaque keys, only which function a "
         "record points at is observable; redefinition / overload-conflict errors of check_existing_functions are not "
